@@ -279,11 +279,21 @@ type vctx struct {
 	children  []*vctx
 	key, val  interface{}
 	hasVal    bool
+	// a deadline that does not expire within the explored window (expiry itself is not modelled)
+	deadline    time.Time
+	hasDeadline bool
 }
 
 var bgCtx = &vctx{}
 
-func (c *vctx) Deadline() (time.Time, bool) { return time.Time{}, false }
+func (c *vctx) Deadline() (time.Time, bool) {
+	for n := c; n != nil; n = n.parent {
+		if n.hasDeadline {
+			return n.deadline, true
+		}
+	}
+	return time.Time{}, false
+}
 func (c *vctx) Done() <-chan struct{} {
 	if c.owner == nil {
 		return nil
@@ -346,6 +356,19 @@ func CtxWithCancel(parent context.Context) (context.Context, context.CancelFunc)
 		})
 	}
 	return c, func() { Atomic(c.cancelTree) }
+}
+
+// CtxWithDeadline / CtxWithTimeout model context.WithDeadline / WithTimeout for deadlines that lie beyond the
+// explored window: Deadline() reports it, Done() closes only through cancel (of this context or an ancestor).
+func CtxWithDeadline(parent context.Context, d time.Time) (context.Context, context.CancelFunc) {
+	c, cancel := CtxWithCancel(parent)
+	v := c.(*vctx)
+	v.deadline, v.hasDeadline = d, true
+	return c, cancel
+}
+
+func CtxWithTimeout(parent context.Context, timeout time.Duration) (context.Context, context.CancelFunc) {
+	return CtxWithDeadline(parent, time.Time{})
 }
 
 // CtxWithValue models context.WithValue.
